@@ -19,13 +19,18 @@ CFG = dict(
          "shortcuts ':' / sample types / total_ / mean_), commands (top text tree peek list traces tags raw dot comments callgrind proto topproto "
          "with node counts, focus/ignore regexps, -cum, >file, digit suffixes, missing arguments), o/help/junk/exit; (b) web: 2-7 requests over "
          "/top /peek /flamegraph / /download /source with mutating and invalid query parameters, sequential or concurrent. "
-         "distinct = sha256 of the input term; non-trivial = at least one report was generated (session), always (web)",
+         "(c) session-src / web-src: source listings against REAL files -- an on-disk tree in the scratch dir with two sets of files of the same "
+         "relative names and different contents, profiles naming them through a remote prefix; histories mix source_path= / trim_path= "
+         "assignments with list / weblist commands (sessions) or with /source and /top requests (web; assignments via configure); here the fresh "
+         "reference of the metamorphic oracle runs in a CHILD PROCESS (harness c10-ref) so that no process-wide cache is shared with it. "
+         "distinct = sha256 of the input term; non-trivial = at least one report was generated (session, session-src), always (web, web-src)",
     spec_what="a report's output, the option state after a command, or the loaded profile depends on earlier commands/requests (C10 statement)",
     trusted_base=["translators gen-configtable, gen-commandtable (pprofCommands: name/hasParam, configHelp keys)",
                   "strings.TrimSpace/Fields modelled for ASCII white space (generated lines are ASCII)",
                   "report generation is abstract in the model; its independence of earlier reports is checked on the real code by the metamorphic oracle and deep comparison",
                   "strconv.ParseFloat + fmt.Sprint oracle table shipped with each case"],
-    assumptions=["outputs that are unstable between identical runs (map-iteration order; C08's subject) are re-run up to 6 times and not counted as leaks",
+    assumptions=["outputs that are unstable between identical runs (map-iteration order; C08's subject) are re-run (bounded budget) and not counted as leaks",
+                 "source-listing profiles give every function its own file and every location one line (two functions per file / inlined lines make weblist's output follow map order)",
                  "profiles are generated without numeric-label units (conflicting units make pprof print warnings in map order)",
                  "web: the configuration a request's report is generated with is not observable from outside; the model's status prediction covers only applyURL errors (400)"],
     shard=30,
